@@ -193,7 +193,11 @@ int vf_run_case(Src &s, Report &r) {
 	// programme labels change at programme boundaries and are hit by noise now and then (VPS has no error protection)
 	static const unsigned PILS[] = { 0x2A5D7, 0x2A5D8, 0x07FFF, 0x1B2C3, 0xFFFFF & (1u << 15 | 5u << 11 | 20u << 6 | 15u) };
 	unsigned cur_label = 0;
-	auto label = [&](Line &l) { if (s.chance(1, 5)) cur_label = s.pick(5); unsigned k = s.chance(1, 8) ? s.pick(5) : cur_label; l.pil = PILS[k]; l.pty = 0x10 + k; l.pcs = k & 3; };
+	// (every fifth label carries a deviating programme type and every seventh a deviating audio status with the PIL unchanged: VPS has no
+	// error protection, and a label is confirmed as a whole; a fixed pattern, so that the choice sequence stays as it was)
+	unsigned label_no = 0;
+	auto label = [&](Line &l) { if (s.chance(1, 5)) cur_label = s.pick(5); unsigned k = s.chance(1, 8) ? s.pick(5) : cur_label; l.pil = PILS[k]; l.pty = 0x10 + k; l.pcs = k & 3;
+		++label_no; if (label_no % 5 == 3) l.pty ^= 0x40; if (label_no % 7 == 5) l.pcs ^= 1; };
 	auto cni_for = [&](const Station &st, int car) { return car == VPS ? st.cni4 : car == F1 ? st.cni1 : st.cni2; };
 
 	// generic checks on the events of one frame; `lines` = what was sent in it (in order)
@@ -308,11 +312,22 @@ int vf_run_case(Src &s, Report &r) {
 		r.say("scenario B: station %s (id %d) then %s (id %d) at frame %u; carriers%s%s%s\n", A.name, A.id, B.name, B.id, change_at, use[0] ? " VPS" : "", use[1] ? " 8/30-1" : "", use[2] ? " 8/30-2" : "");
 		unsigned net_events_before = 0, net_events_after = 0; bool announced_A = false, announced_B = false, b_confirmed = false;
 		int dev_cooldown[3] = {0, 0, 0};
-		for (unsigned f = 0; f < nfr && !rc; ++f) {
+		// A real retune loses frames: in half of the histories the time stamps jump at the change (libzvbi then starts a countdown of 40
+		// frames after which it assumes a channel change on its own; identifying the new station within that time must settle it).
+		// Derived from a choice already made; such histories run at least 46 frames past the change.
+		bool jump = (change_at & 1) != 0;
+		unsigned nfr_b = jump ? std::max(nfr, change_at + 46) : nfr;
+		if (jump) r.cls("scenario-B-time-stamp-jump-at-the-change");
+		for (unsigned f = 0; f < nfr_b && !rc; ++f) {
+			// (only when station A is identified: otherwise the decoder cannot tell whether the station identified after the jump is a new
+			// one, and its documented assumption of a channel change 40 frames after lost frames stands)
+			if (jump && f == change_at) { if (announced_A) t += 0.3 + 0.1 * (change_at % 7); else jump = false; }
 			const Station &st = f < change_at ? A : B;
 			std::vector<Line> lv; bool dev_frame = false;
 			for (int c = 0; c < 3; ++c) {
-				if (!use[c] || !s.chance(3, 4)) continue;
+				bool sent = use[c] && s.chance(3, 4);
+				if (use[c] && jump && f >= change_at && f < change_at + 4) sent = true;	// the new station is identified right after the retune (otherwise the decoder's own assumption of a channel change after 40 frames would be a legitimate NETWORK event)
+				if (!sent) continue;
 				Line l; memset(&l, 0, sizeof l); l.car = c; l.cni = cni_for(st, c); label(l); l.lto = 0x22; l.mjd = 59000; l.h = 7; l.m = 5; l.s = f % 60;
 				// an isolated corrupted reception: the previous and the next reception of this carrier are intact and identical
 				bool near_change = f + 3 >= change_at && f <= change_at + 3;
